@@ -68,6 +68,7 @@ type Contract struct {
 	CasesExpr    string   // cases <expr> in lo..hi: the function is verified once per value (a proof-search tactic; coverage is an obligation)
 	CasesLo      int
 	CasesHi      int
+	CasesElse    bool // `cases e in lo..hi else`: one more run for e outside lo..hi (then no coverage obligation is needed)
 	caseCover    *Clause // set on the first case run: lo <= expr <= hi follows from the requires
 	caseNote     string
 	WitnessFrom  map[string]string // witness name -> callee contract that supplies it
@@ -499,9 +500,14 @@ func (e *Engine) loadContracts() error {
 					case "callback":
 						cur.Modifies["callback:"+strings.TrimSpace(rc.text)] = true
 					case "cases":
-						m := regexp.MustCompile(`^(.+?)\s+in\s+(-?\d+)\.\.(-?\d+)$`).FindStringSubmatch(strings.TrimSpace(rc.text))
+						txt := strings.TrimSpace(rc.text)
+						if strings.HasSuffix(txt, " else") {
+							cur.CasesElse = true
+							txt = strings.TrimSpace(strings.TrimSuffix(txt, " else"))
+						}
+						m := regexp.MustCompile(`^(.+?)\s+in\s+(-?\d+)\.\.(-?\d+)$`).FindStringSubmatch(txt)
 						if m == nil {
-							return perr(fmt.Errorf("cases needs `<expr> in lo..hi`"))
+							return perr(fmt.Errorf("cases needs `<expr> in lo..hi [else]`"))
 						}
 						cur.CasesExpr = m[1]
 						cur.CasesLo, _ = strconv.Atoi(m[2])
